@@ -452,7 +452,35 @@ func main() {
 			case 0:
 				h = string(r.Bytes(r.Intn(60)))
 			case 1: // long single member / many duplicates / sizes at limits
-				switch r.Intn(5) {
+				switch r.Intn(7) {
+				case 5: // a member whose size comes from its properties: short key=value, total around 4096
+					tot := 4096 + r.Intn(5) - 2
+					if r.Chance(1, 3) {
+						tot = 4097 + r.Intn(3000)
+					}
+					base := "k=v;p=" // 6 bytes
+					h = base + r.ASCIIFrom("abc", tot-len(base))
+					if r.Bool() {
+						h = "a=b," + h
+					}
+				case 6: // several properties adding up across the limit
+					var sb strings.Builder
+					sb.WriteString("k=v")
+					target := 4096 + r.Intn(7) - 3
+					for i := 0; sb.Len() < target; i++ {
+						room := target - sb.Len()
+						seg := fmt.Sprintf(";p%d=", i)
+						if room <= len(seg) {
+							sb.WriteString(";" + r.ASCIIFrom("q", room-1))
+							break
+						}
+						n := room - len(seg)
+						if n > 700 {
+							n = 100 + r.Intn(600)
+						}
+						sb.WriteString(seg + r.ASCIIFrom("abc", n))
+					}
+					h = sb.String()
 				case 0:
 					h = "k=" + r.ASCIIFrom("abc", 4094+r.Intn(4)-2)
 				case 1:
